@@ -175,6 +175,42 @@ class C09(XsProp):
                         # not representable: wrapped value or overflow error, nothing else
                         if not (res == 'EOverflow' or (res == 'ok' and stack == ['I' + hx(wrap(exact))])):
                             bad = 'unrepresentable result must wrap or overflow, got %s %s' % (res, stack)
+            elif all(cells.strip(p)[0] == 'R' for p in pa) and all(cells.strip(p)[1] != 'nan' for p in pa):
+                # reals: the host's binary64 arithmetic (Python floats) as an independent oracle for the failing-input search
+                import math
+                fv = [struct.unpack('>d', bytes.fromhex(cells.strip(p)[1]))[0] for p in pa]
+                rb = lambda x: 'Rnan' if x != x else 'R' + struct.pack('>d', x).hex()
+                want = None
+                if len(fv) == 2:
+                    a, b = fv
+                    try:
+                        if w == '+': want = ('ok', [rb(a + b)])
+                        elif w == '-': want = ('ok', [rb(a - b)])
+                        elif w == '*': want = ('ok', [rb(a * b)])
+                        elif w == '/':
+                            if b == 0.0: want = ('EDivZero', None)
+                            elif math.isinf(a) and math.isinf(b): want = ('ok', ['Rnan'])
+                            else: want = ('ok', [rb(a / b)])
+                        elif w in ('<', '<=', '>', '>=', '==', '<>'):
+                            t = {'<': a < b, '<=': a <= b, '>': a > b, '>=': a >= b, '==': a == b, '<>': a != b}[w]
+                            want = ('ok', ['T' if t else 'F'])
+                        elif w in ('min', 'max') and not (a == 0.0 and b == 0.0):
+                            want = ('ok', [rb(min(a, b) if w == 'min' else max(a, b))])
+                    except (OverflowError, ZeroDivisionError, ValueError):
+                        want = None
+                elif len(fv) == 1:
+                    a = fv[0]
+                    if w == 'neg': want = ('ok', [rb(-a)])
+                    elif w == 'abs': want = ('ok', [rb(abs(a))])
+                    elif w == 'zero?': want = ('ok', ['T' if a == 0.0 else 'F'])
+                    elif w == 'positive?': want = ('ok', ['T' if a > 0.0 else 'F'])
+                    elif w == 'negative?': want = ('ok', ['T' if a < 0.0 else 'F'])
+                if want is not None:
+                    if want[1] is None:
+                        if res != want[0]:
+                            bad = 'expected %s, got %s %s' % (want[0], res, stack)
+                    elif res != want[0] or stack != want[1]:
+                        bad = 'binary64 result is %s, got %s %s' % (want[1], res, stack)
             elif res.startswith('EType('):
                 payload = res[6:-1]
                 if payload not in args and payload not in [cells.fmt(cells.strip(p)) for p in pa]:
